@@ -3,6 +3,7 @@ package vsched
 import (
 	"io"
 	"net"
+	"os"
 	"sync"
 	"time"
 )
@@ -12,8 +13,9 @@ import (
 // closed, or the read deadline expired). Outside a managed execution it must
 // not be used.
 type pipeHalf struct {
-	o   Obj
-	buf []byte
+	o     Obj
+	buf   []byte
+	wdead bool // the WRITE deadline of the endpoint that writes into this half has expired
 }
 
 type PipeNet struct {
@@ -82,6 +84,10 @@ func (c *PipeConn) Write(p []byte) (int, error) {
 	if h.o.Closed {
 		return 0, io.ErrClosedPipe
 	}
+	if h.wdead {
+		// like a net.Conn whose write deadline has passed: nothing is delivered
+		return 0, &net.OpError{Op: "write", Net: "vpipe", Addr: pipeAddr{}, Err: os.ErrDeadlineExceeded}
+	}
 	c.n.mu.Lock()
 	h.buf = append(h.buf, p...)
 	c.n.mu.Unlock()
@@ -110,8 +116,33 @@ func (c *PipeConn) SetReadDeadline(t time.Time) error {
 	return nil
 }
 
-func (c *PipeConn) SetWriteDeadline(t time.Time) error { return nil }
-func (c *PipeConn) SetDeadline(t time.Time) error      { return c.SetReadDeadline(t) }
+// SetWriteDeadline: as on the read side the deadline is modelled by whether it has expired at the moment it is
+// set (zero = none; a time not after the virtual clock = expired: every transport Write fails with a timeout
+// until the deadline is changed; anything later = not expired). Write looks at it after its own scheduling
+// point, before delivering, so a deadline set by another thread between two transport writes of one
+// tls.Conn.Write is an explorable interleaving. The call is a scheduling point only when it changes that
+// state: a call that changes nothing commutes with every other operation (so a zero deadline, and the
+// real-clock deadlines tls sets around close_notify, leave every schedule exactly as it was).
+//
+//go:norace
+func (c *PipeConn) SetWriteDeadline(t time.Time) error {
+	if cur != nil && cur.aborting {
+		return nil
+	}
+	h := &c.n.h[c.out]
+	dead := !t.IsZero() && !t.After(VNow())
+	if dead == h.wdead {
+		return nil
+	}
+	Point(KOther, nil)
+	h.wdead = dead
+	return nil
+}
+
+func (c *PipeConn) SetDeadline(t time.Time) error {
+	c.SetReadDeadline(t)
+	return c.SetWriteDeadline(t)
+}
 
 type pipeAddr struct{}
 
